@@ -338,7 +338,6 @@ func (c *Caller) InvokeContext(ctx context.Context, id string, name string, args
 			calls = cc.(*callCache)
 		}
 	}
-	calls.Append(newCall(index, name, args))
 	var results *resultMap
 	if rm, ok := c.results.Get(id); ok {
 		results = rm.(*resultMap)
@@ -349,8 +348,11 @@ func (c *Caller) InvokeContext(ctx context.Context, id string, name string, args
 			results = rm.(*resultMap)
 		}
 	}
+	// the result channel must be known before the call can be taken: a quick provider
+	// posts the result of a queued call before this goroutine runs again.
 	result := make(chan returnValue, 1)
 	results.Set(index, result)
+	calls.Append(newCall(index, name, args))
 	c.response(id)
 	if c.Timeout > 0 {
 		ctx, cancel := context.WithTimeout(ctx, c.Timeout)
